@@ -405,7 +405,8 @@ func init() {
 		ID: "C15",
 		Explanation: "Decides the skip discipline that makes whitespace, comments and keyword case irrelevant: (R1) every token-kind test of the hand-written parser (comparison of tokens[i].TokenType with a kind other than WS/COMMENT, or a kind handed to a predicate helper) looks at an index that is the result of consumeIgnoreableTokens, is the function's own parameter (then every call site must pass a skipped index), or - for indexes returned by callees - whose callee summary says `skipped` (typestate over SSA with function summaries, greatest fixpoint); (R2) the expression-token filter drops exactly the kinds the skipper skips; (R3) keywords are matched on strings.ToLower of the whole lexeme and are spelled in lower case; (R4) if the lexer keeps a memory of tokens it produced and reads it back, every store into it is guarded by tests that exclude WS and COMMENT. " +
 			"A raw decision means: inserting a blank or a comment at that gap changes the branch taken. Does NOT decide the lexer's comment state machine nor equality of the resulting syntax trees." +
-			" Round 4: (R6) with the lexer state fixed to a comment state only arms reached because of the state (or end-of-input arms) stay reachable.",
+			" Round 4: (R6) with the lexer state fixed to a comment state only arms reached because of the state (or end-of-input arms) stay reachable." +
+			" Round 5: (R7) a newline ends a line comment in each of its states; (R8) the first character of the block comment's end marker restarts the recognition from every recognition state (state and character fixed).",
 		Assumptions: commonAssumptions,
 		Rules: []RuleFn{
 			{Name: "C15.R1", Run: func(c *Ctx) {
@@ -419,6 +420,8 @@ func init() {
 			{Name: "C15.R4", Run: func(c *Ctx) { ruleLexerTokenMemory(c, "C15.R4") }},
 			{Name: "C15.R5", Run: func(c *Ctx) { ruleLexemeComparedRaw(c, "C15.R5") }},
 			{Name: "C15.R6", Run: func(c *Ctx) { ruleCommentStatesOwnTheirCharacters(c, "C15.R6") }},
+			{Name: "C15.R7", Run: func(c *Ctx) { ruleNewlineEndsLineComment(c, "C15.R7") }},
+			{Name: "C15.R8", Run: func(c *Ctx) { ruleBlockCommentMarkerRestarts(c, "C15.R8") }},
 		},
 	})
 	register(&Property{
